@@ -219,6 +219,17 @@ def main(tier, rep):
     # ---- (A) model
     from drivers import c08_model
     t0 = common._real_time()
+    # the unbounded (inductive, Apalache) part runs beside everything else: it needs one core and no TLC
+    import threading
+    ind_box = {}
+
+    def ind():
+        try:
+            ind_box["r"] = c08_model.inductive_run(tier)
+        except BaseException as e:   # noqa
+            ind_box["e"] = e
+    ind_thread = threading.Thread(target=ind)
+    ind_thread.start()
     c08_model.check(rep, tier)
     rep.set("t_model_s", round(common._real_time() - t0, 1))
     t0 = common._real_time()
@@ -277,6 +288,10 @@ def main(tier, rep):
             raise common.MachineryError("schedule explorer failed: " + err[-800:])
         vals, n = json.loads(out)
         results.append(({json.dumps(v["ev"], sort_keys=True) + str(v["h"]["max"]): v for v in vals}, n))
+    ind_thread.join()
+    if "e" in ind_box:
+        raise ind_box["e"]
+    c08_model.inductive_report(rep, ind_box["r"])
     for part, n in results:
         nexec += n
         for k, v in part.items():
